@@ -579,3 +579,160 @@ Proof.
     destruct (PV vb eq_refl) as (ph' & Hm'). rewrite <- R2, Ev, R1, <- e, Maj in Hm'.
     injection Hm' as E1 _. cbn. rewrite <- E1. apply N.eqb_refl.
 Qed.
+
+Lemma add_vote_w v peer s s' o :
+  cs_halted s = false -> W s -> add_vote E v peer s = (s', o) -> W s'.
+Proof.
+  intros Hh Wa Eq. unfold add_vote in Eq.
+  destruct ((v_height v + 1 =? cs_height s) && (v_type v =? PRECOMMIT)%N).
+  { destruct (negb (step_eqb (cs_step s) SNewHeight)); [injection Eq as <- <-; exact Wa|].
+    destruct (cs_last_commit s) as [lc|]; [|eapply panic_w; eassumption].
+    destruct (vs_add lc v) as [[lc' added] e].
+    set (s1 := set_last_commit (Some lc') s) in *.
+    assert (P1 : W s1) by (apply (w_fr s); [eapply backed_bquiet; [|exact (proj1 Wa)]; subst s1; bq | subst s1; fr0 | subst s1; frj; auto | exact Wa]).
+    assert (Hh1 : cs_halted s1 = false) by (subst s1; cs; exact Hh).
+    destruct (negb added); [injection Eq as <- <-; exact P1|].
+    destruct (e_skip_timeout_commit E && has_all lc').
+    - destruct (enter_new_round E (cs_height s1) 0 s1) as [s2 o2] eqn:E2. injection Eq as <- <-.
+      eapply enter_new_round_w; eassumption.
+    - injection Eq as <- <-. exact P1. }
+  destruct (negb (v_height v =? cs_height s)); [injection Eq as <- <-; exact Wa|].
+  pose proof (maj_keeps_add_vote (cs_votes s) v peer) as K.
+  destruct (hv_add_vote (cs_votes s) v peer) as [[hv' added] e] eqn:Ea. cbn [fst] in K.
+  pose proof (hv_add_vote_maj (cs_votes s) v peer hv' added e Ea) as MB.
+  set (s1 := set_votes hv' s) in *.
+  destruct Wa as (Ba & La & Ja).
+  assert (B1 : Backed s1) by (eapply backed_bquiet; [|exact Ba]; subst s1; unfold BQuiet; cs; auto).
+  assert (L1 : LVI0 s1) by (eapply lvi0_fr; [|exact La]; subst s1; fr0).
+  assert (Hh1 : cs_halted s1 = false) by (subst s1; cs; exact Hh).
+  (* (b) survives the vote unless it is an added prevote of the current round *)
+  assert (J1 : ~ (added = true /\ cs_round s = v_round v /\ (v_type v =? PREVOTE)%N = true) -> J s1).
+  { intros Hn Hst h ph Hm Hp. subst s1. cs. destruct (MB _ _ Hm) as [Hm0 | Hx]; [exact (Ja Hst h ph Hm0 Hp) | contradiction]. }
+  destruct (negb added) eqn:Na.
+  { injection Eq as <- <-. split; [exact B1|]. split; [exact L1|]. apply J1. intros [X _]. rewrite X in Na. discriminate. }
+  match type of Eq with (let '(s9, o9) := ?body in _) = _ => destruct body as [s9 o9] eqn:Eb end.
+  injection Eq as <- <-.
+  destruct ((v_type v =? PREVOTE)%N) eqn:Ty.
+  - set (s2 := polka_update (v_round v) s1) in *.
+    assert (P2 : W s2).
+    { apply polka_update_w; [exact B1 | exact L1|]. intro n. apply J1. intros (_ & X & _). subst s1. cs. congruence. }
+    destruct (polka_update_backed (v_round v) s1 B1) as [_ H2]. fold s2 in H2.
+    assert (Hh2 : cs_halted s2 = false) by (rewrite H2; exact Hh1).
+    destruct ((cs_round s2 <? v_round v) && o_has_any (prevotes (cs_votes s2) (v_round v))).
+    { eapply enter_new_round_w; eassumption. }
+    destruct ((cs_round s2 =? v_round v) && step_le SPrevote (cs_step s2)) eqn:Cur.
+    { bool_to_prop.
+      assert (Rk : round_ok (cs_height s) (v_round v) s2) by (intro; lia).
+      destruct (o_maj23 (prevotes (cs_votes s2) (v_round v))) as [polka|].
+      - destruct (is_proposal_complete s2 || match polka with None => true | Some _ => false end).
+        + eapply enter_precommit_w; eassumption.
+        + destruct (o_has_any (prevotes (cs_votes s2) (v_round v))); [|injection Eb as <- <-; exact P2].
+          eapply enter_prevote_wait_w; eassumption.
+      - destruct (o_has_any (prevotes (cs_votes s2) (v_round v))); [|injection Eb as <- <-; exact P2].
+        eapply enter_prevote_wait_w; eassumption. }
+    destruct (cs_proposal s2) as [p|]; [|injection Eb as <- <-; exact P2].
+    destruct ((0 <=? pr_polr p) && (pr_polr p =? v_round v) && is_proposal_complete s2); [|injection Eb as <- <-; exact P2].
+    refine (enter_prevote_w _ _ _ _ _ Hh2 _ P2 Eb). intro; lia.
+  - assert (P1 : W s1).
+    { split; [exact B1|]. split; [exact L1|]. apply J1. intros (_ & _ & X). discriminate. }
+    destruct (o_maj23 (precommits (cs_votes s1) (v_round v))) as [polka|].
+    + eapply (seq_w _ _ s1 s9 o9 (round_ok (cs_height s) (v_round v)) Eb).
+      * intros sa oa Ea'. destruct (enter_new_round_good E _ _ _ _ _ Hh1 Ea') as (G & _ & R).
+        split; [eapply enter_new_round_w; eassumption | intros _; exact R].
+      * intros sa sb ob Hha Pa Ra Eb2.
+        eapply (seq_w _ _ sa sb ob (fun _ => True) Eb2).
+        -- intros sc oc Ec. split; [eapply enter_precommit_w; eassumption | auto].
+        -- intros sc sd od Hhc Pc _ Ed. destruct polka as [bb|].
+           ++ eapply (seq_w _ _ sc sd od (fun _ => True) Ed).
+              ** intros se oe Ee. split; [eapply enter_commit_w; eassumption | auto].
+              ** intros se sf of Hhe Pe _ Ef.
+                 destruct (e_skip_timeout_commit E && o_has_all (precommits (cs_votes s1) (v_round v)));
+                   [|injection Ef as <- <-; exact Pe].
+                 eapply enter_new_round_w; eassumption.
+           ++ eapply enter_precommit_wait_w; eassumption.
+    + destruct ((cs_round s1 <=? v_round v) && o_has_any (precommits (cs_votes s1) (v_round v))); [|injection Eb as <- <-; exact P1].
+      eapply (seq_w _ _ s1 s9 o9 (fun _ => True) Eb).
+      * intros sa oa Ea'. split; [eapply enter_new_round_w; eassumption | auto].
+      * intros sa sb ob Hha Pa _ Eb2. eapply enter_precommit_wait_w; eassumption.
+Qed.
+
+Lemma handle_timeout_w ti s s' o :
+  cs_halted s = false -> SchedInv s -> W s -> handle_timeout E ti s = (s', o) -> W s'.
+Proof.
+  intros Hh SI P Eq. unfold handle_timeout in Eq.
+  destruct (negb (existsb (tinfo_eqb ti) (cs_scheduled s))) eqn:Ex; [injection Eq as <- <-; exact P|].
+  destruct (negb (ti_height ti =? cs_height s) || (ti_round ti <? cs_round s)
+            || ((ti_round ti =? cs_round s) && (step_rank (ti_step ti) <? step_rank (cs_step s)))) eqn:G;
+    [injection Eq as <- <-; exact P|].
+  bool_to_prop.
+  assert (Rk : round_ok (ti_height ti) (ti_round ti) s).
+  { apply existsb_exists in Ex. destruct Ex as (tj & Hin & Et). unfold tinfo_eqb in Et. bool_to_prop.
+    specialize (SI tj Hin). intro. lia. }
+  destruct (ti_step ti).
+  - eapply enter_new_round_w; eassumption.
+  - eapply enter_propose_w; [exact Hh | | exact P | exact Eq].
+    intro. destruct P as (_ & (P0 & _) & _). lia.
+  - eapply enter_prevote_w; eassumption.
+  - eapply panic_w; eassumption.
+  - eapply enter_precommit_w; eassumption.
+  - eapply panic_w; eassumption.
+  - eapply (seq_w _ _ s s' o (fun _ => True) Eq).
+    + intros s1 o1 E1. split; [eapply enter_precommit_w; eassumption | auto].
+    + intros s1 s2 o2 Hh1 P1 _ E2. eapply enter_new_round_w; eassumption.
+  - eapply panic_w; eassumption.
+Qed.
+
+Lemma handle_w i s s' o : SchedInv s -> W s -> handle E s i = (s', o) -> W s'.
+Proof.
+  intros SI P Eq. unfold handle in Eq.
+  destruct (cs_halted s) eqn:Hh; [injection Eq as <- <-; exact P|].
+  destruct i.
+  - eapply set_proposal_w; eassumption.
+  - eapply add_part_w; eassumption.
+  - eapply add_vote_w; eassumption.
+  - eapply handle_timeout_w; eassumption.
+  - destruct (height =? cs_height s); injection Eq as <- <-; [|exact P].
+    destruct P as (Ba & La & Ja). split; [|split].
+    + eapply backed_bquiet; [|exact Ba]. unfold BQuiet. cs. split; [apply maj_keeps_peer | auto].
+    + eapply lvi0_fr; [|exact La]. fr0.
+    + intros Hst h ph Hm Hp. cs. apply maj_back_peer in Hm. exact (Ja Hst h ph Hm Hp).
+Qed.
+
+Lemma run_w : forall ins s s' os,
+  SchedInv s -> W s -> run E s ins = (s', os) -> W s' /\ SchedInv s'.
+Proof.
+  induction ins as [|i ins IH]; intros s s' os SI P Eq; cbn [run] in Eq.
+  - injection Eq as <- <-. auto.
+  - destruct (handle E s i) as [s1 o1] eqn:E1. destruct (run E s1 ins) as [s2 os2] eqn:E2.
+    injection Eq as <- <-.
+    apply (IH s1 s2 os2); [apply (handle_good E i s s1 o1 SI E1); exact SI | eapply handle_w; eassumption | exact E2].
+Qed.
+
+Theorem reachable_w height lc ins : W (fst (run E (init_state E height lc) ins)).
+Proof.
+  destruct (run E (init_state E height lc) ins) as [s' os] eqn:Er. cbn [fst].
+  refine (proj1 (run_w ins _ _ _ (init_sched E height lc) _ Er)).
+  apply fresh_w; try reflexivity. unfold Backed, init_state. cbn. split; apply backed_none.
+Qed.
+
+(* (a), (b), (c) for every reachable state *)
+Theorem reachable_lock_is_valid height lc ins :
+  let s := fst (run E (init_state E height lc) ins) in
+  (0 <= cs_round s /\ cs_vround s <= cs_round s /\ -1 <= cs_lround s <= cs_round s) /\
+  (cs_step s <> SCommit -> forall h ph,
+     o_maj23 (prevotes (cs_votes s) (cs_round s)) = Some (Some (h, ph)) -> hashes_to (cs_pblock s) h = true ->
+     cs_vround s = cs_round s /\ hashes_to (cs_vblock s) h = true) /\
+  (forall lb, cs_lblock s = Some lb ->
+     exists vb, cs_vblock s = Some vb /\ cs_lround s <= cs_vround s /\
+                (b_hash vb = b_hash lb \/ cs_lround s < cs_vround s)).
+Proof.
+  cbv zeta. destruct (reachable_w height lc ins) as (_ & (L0 & L1 & L2 & L3 & L4) & Ja).
+  split; [auto|]. split; [exact Ja|].
+  intros lb El. destruct (L4 lb El) as [Le Hc].
+  destruct (cs_vblock (fst (run E (init_state E height lc) ins))) as [vb|] eqn:Evb.
+  - exists vb. split; [reflexivity|]. split; [exact Le|].
+    destruct Hc as [Hc|Hc]; [left; cbn in Hc; apply N.eqb_eq in Hc; exact Hc | right; exact Hc].
+  - exfalso. specialize (L3 eq_refl). destruct Hc as [Hc|Hc]; [discriminate | lia].
+Qed.
+
+End WithEnv.
